@@ -119,11 +119,69 @@ class C11(ParserSessionProp):
         return out
 
 
+def real_pool_validation(prop, seed, want):
+    """model validation (not the deciding step): replay generated fault-free pooled
+    calls on the REAL multiprocessing.Pool with the REAL time.sleep and require the
+    same responses as under SimPool"""
+    import depccg.parsing as P
+    from depccg.types import ScoringResult
+    jobs = []
+    index = 10 ** 6
+    while len(jobs) < want and index < 10 ** 6 + 40 * want:
+        spec = prop.generate(seed, index, 'quick', {})
+        index += 1
+        for oi, op in enumerate(spec['ops']):
+            if op.get('fault') or len(op['batch']) <= op.get('max_chunk_size', 20):
+                continue
+            jobs.append((spec, oi))
+            break
+
+    out = {'calls': 0, 'equal': 0, 'sentences': 0}
+    # simulated and real executions strictly one after the other (the seams are module attributes)
+    for spec, oi in jobs:
+        world = session.World(spec['world'])
+        op = spec['ops'][oi]
+        sim_rec = prop.run_call(world, op, 'inprocess')
+        cfg = session.cfg_of(op)
+        doc = [world.tokens[s] for s in op['batch']]
+        scores = [ScoringResult(world.tag[s], world.dep[s]) for s in op['batch']]
+        try:
+            real = P.run(doc, scores, world.categories, world.roots, world.binary, world.unary,
+                         processes=op.get('processes', 2), max_chunk_size=op.get('max_chunk_size', 20), **cfg)
+            real_c = [refparser.canon_response(r) for r in real]
+        except Exception as e:  # noqa
+            real_c = ('exc', type(e).__name__)
+        sim_c = ([refparser.canon_response(r) for r in sim_rec.responses] if sim_rec.responses is not None
+                 else ('exc', sim_rec.exception[0]))
+        if isinstance(real_c, list) and isinstance(sim_c, list):
+            same = len(real_c) == len(sim_c) and all(session.responses_equal(a, b) for a, b in zip(real_c, sim_c))
+        else:
+            same = real_c == sim_c
+        out['calls'] += 1
+        out['equal'] += 1 if same else 0
+        out['sentences'] += len(op['batch'])
+    return out
+
+
 def _brief(canon):
     out = []
     for tree, score in canon[:2]:
         out.append(f'{_tree_str(tree)}:{score:.4f}')
     return '[' + ', '.join(out) + (', ...' if len(canon) > 2 else '') + ']'
+
+
+def _evidence_extra(self, stats):
+    out = {}
+    try:
+        n = 16 if self._tier == 'thorough' else 3
+        out['real_pool_cross_check'] = real_pool_validation(self, 0, n)
+    except Exception as e:  # noqa
+        out['real_pool_cross_check'] = {'error': f'{type(e).__name__}: {e}'}
+    return out
+
+
+C11.evidence_extra = _evidence_extra
+C11._tier = 'quick'
 
 
 def _tree_str(t):
